@@ -19,3 +19,11 @@ Example separate_example :
   K2 = [(T0, 3%nat); (TPos, 1%nat)] /\ map snd sl = [[1%nat; 2%nat; 3%nat]] /\ length (hd [] A2) = 4%nat.
 Proof. vm_compute. repeat split; reflexivity. Qed.
 Print Assumptions csl_merges_adjacent_soc.
+(* the hypotheses of gen_separate_equiv are met by a concrete instance with a separated second-order cone and a kept orthant *)
+From SageVerif Require Import Model.FormIdioms Gen.GenForms Gen.GenMosekForms.
+Example gen_separate_example :
+  let A := [[1%Q]; [2%Q]; [3%Q]; [1%Q]] in let K := [(TSoc, 3%nat); (TPos, 1%nat)] in
+  length A = Ksize K /\
+  gen_separate 0%Q 1%Q qopp (fun a b => Qred (a + b)) 1%nat A [0%Q; 0%Q; 0%Q; 1%Q] K (Some [TPos])
+  = separate 0%Q 1%Q qopp 1%nat A [0%Q; 0%Q; 0%Q; 1%Q] K (fun t => existsb (ctag_eqb t) [TPos]).
+Proof. vm_compute. split; reflexivity. Qed.
